@@ -20,6 +20,9 @@ CLASSES = {1: "idle_ignores_read_errors", 2: "idle_no_deadline"}
 
 
 def ev_data(b, ok=True):
+    if len(b) > 2000 and len(set(b)) == 1:
+        # a long run of one byte: built with N.iter (a 64 KiB string literal overflows coqc's stack)
+        return "(Data (N.iter %d%%N (cons (ascii_of_nat %d)) []) %s)" % (len(b), b[0], C.coq_bool(ok))
     return "(Data %s %s)" % (C.coq_str(b), C.coq_bool(ok))
 
 
@@ -117,7 +120,7 @@ def imap_prefix(sc, target, rng):
         if target == "literal_plus":
             sc.cmd("APPEND INBOX {%d+}" % n, noreply=True)
         else:
-            sc.cmd(rng.choice(["APPEND INBOX {%d}", "APPEND INBOX (\\Seen) {%d}", "append inbox {%d}"]) % n)
+            sc.cmd(rng.choice(["APPEND INBOX {%d}", "APPEND INBOX (\\Seen) {%d}", "append INBOX {%d}"]) % n)
         if target == "literal_half":
             sc.desc.append("half-literal")
             sc.step(b"Subj", "quiet:80", [])
@@ -209,7 +212,7 @@ PARTIAL_OK = ["fresh", "authed", "selected", "unselected", "idle", "idle_junk", 
 
 def lmtp_scenario(rng, target, ending):
     max_size = 60 if target == "oversize" else 100000
-    sc = Sc("lmtp", timeout_s=1 if ending == "silent" else 30, max_size=max_size)
+    sc = Sc("lmtp", timeout_s=2 if ending == "silent" else 30, max_size=max_size)
 
     def cmd(text, n=1, ok=True):
         line = text.encode("latin-1") + b"\r\n"
@@ -218,7 +221,7 @@ def lmtp_scenario(rng, target, ending):
 
     def dline(text):
         line = text + b"\r\n"
-        sc.step(line, "quiet:30", [ev_data(line)])
+        sc.step(line, "quiet:15", [ev_data(line)])
     lh = lambda: cmd(rng.choice(["LHLO client.test", "lhlo x"]))
     mail = lambda: cmd(rng.choice(["MAIL FROM:<a@b.test>", "mail from:<a@b.test>", "MAIL FROM:<a@b.test> SIZE=100"]))
     rcpt = lambda i=1: cmd("RCPT TO:<u%d@example.com>" % i)
@@ -250,8 +253,8 @@ def lmtp_scenario(rng, target, ending):
         if two:
             rcpt(2)
         cmd("DATA")
-        for l in (b"From: a@b.test", b"Subject: c20 delivered", b"", b"hello", b"..stuffed"):
-            dline(l)
+        lines = [l + b"\r\n" for l in (b"From: a@b.test", b"To: u1@example.com", b"Subject: c20 delivered", b"", b"hello", b"..stuffed")]
+        sc.step(b"".join(lines), "quiet:30", [ev_data(l) for l in lines])
         sc.desc.append(".")
         sc.step(b".\r\n", "lmtp:%d" % (2 if two else 1), [ev_data(b".\r\n", True)])
         if rng.random() < 0.5:
